@@ -37,6 +37,8 @@ THEOREMS = ['Nb.C12.' + t for t in [
     'table_findRow', 'save_then_load_returns_writer', 'save_load_after_any_opener_calls',
     'hist_independent_of_opener_calls', 'save_obs_independent_of_history', 'codec_case_insensitive',
     'holders_agree', 'backward_and_dangling_seek_counterexamples', 'routes_equal_holder',
+    'gen_endswith_eq', 'gen_iendswith_eq', 'gen_slice_is_cutEnd', 'gen_splitext_addext_loop_partial',
+    'gen_splitLast_is_rfind', 'gen_strip_empty_is_all_dots',
 ]]
 ASSUMPTIONS = [
     'hand-written Lean model (Model/C12.lean) of filename_parser.py, posixpath.splitext, '
@@ -46,6 +48,14 @@ ASSUMPTIONS = [
     'strings are modelled as UTF-8 byte lists with ASCII case folding: names whose NON-ASCII characters have '
     'case mappings that interact with the extension (e.g. KELVIN SIGN in ".brik") are outside the model',
     '`_stringify_path` (pathlib.Path(...).expanduser().as_posix()) is not modelled: the model takes its result',
+    'stage T: _endswith, _iendswith, splitext_addext, parse_filename, types_filenames are translated from the working '
+    'tree on every run (harness/py2lean_c12.py -> Generated/C12Funcs.lean); trusted: the translator (purely syntactic; '
+    'desugars for-break-else with a flag, function-valued locals as tags + generated dispatcher) and the operator semantics '
+    'of Basic/PyStrC12.lean (ASCII-only str.lower/upper, posixpath.splitext, _stringify_path = identity on names pathlib '
+    'leaves unchanged, TypesFilenamesError -> the single "refused" outcome), both validated every run by the `gen` '
+    '(translated functions vs real functions) and `pyop` (every operator vs CPython) streams; PROVED equal to the model: '
+    '_endswith, _iendswith, the suffix loop of splitext_addext; NOT proved (gen stream only): tail of splitext_addext, '
+    'parse_filename, types_filenames',
     'class tables (files_types, valid_exts, _compressed_suffixes, rw, opener keys) are regenerated from the '
     'working tree on every run and the table lemmas re-proved by `decide`',
     'codecs (gzip/bz2/zstd) enter routes_equal only through the contract decomp(comp(b)) = b; real content '
@@ -60,6 +70,10 @@ ASSUMPTIONS = [
     'write programs: BytesIO / plain-file / GzipFile / BZ2File / ZstdFile seek+write behaviour is modelled by two '
     'small machines (random access, sequential zero-filling) and compared with the real objects on every wprog case; '
     'that each class\'s to_file_map is a forward-only program is observed (recorded calls), not proved',
+    'kw / shist streams are oracle-only (no model line): the reference is the real code on another route / on a BytesIO; '
+    'a from_stream that fails on another class\'s bytes is compared as "fails" only (exception class and stream position '
+    'after parsing foreign bytes depend on the holder), the position after reading the DATA of an image is not compared '
+    '(memory map vs read), seeks are taken modulo the stream length (decompressors clamp at EOF)',
     'names whose last path component before the extension is empty or only dots (".mgz", "..nii") are '
     'compared model-vs-code but are outside the oracle (os.path.splitext sees no extension there)',
 ]
@@ -80,6 +94,24 @@ RULE = ('streams: fm = every modelled class x member (+ .mgz) x EVERY case mix o
         'wprog-class = the write/seek calls each serialisable class really makes (recorded, both header byte orders) '
         'replayed on BytesIO, plain file, gzip, bz2, zstd through ImageOpener + seek_tell; wprog = random and hand-made '
         'write programs (forward gaps, empty writes, backward and dangling seeks) on the same five holder kinds; '
+        'kw = KEYWORD routes: all 10 writable classes x data dtypes that make the keyword matter (GIFTI arrays declared '
+        'float64/int64/uint16/int16/int8 and mixtures; volume data int16/uint8/float32/float64/int32/int64, both header byte '
+        'orders) x every keyword the class\'s to_file_map accepts with default, non-default, invalid values and a keyword the '
+        'class does not accept (GIFTI enc x mode; NIfTI/Analyze/CIFTI-2 dtype= incl. byte-order-specific, compat, smallest; '
+        'MGH none) x every route (to_bytes, to_stream on BytesIO and on an open file, to_filename str/Path, nib.save str/Path, '
+        'to_file_map with explicit map / own map / BytesIO map) under a random accepted spelling (member, case, suffix): same '
+        'decompressed bytes per member or the same exception class, and equivalent images when loaded back; '
+        'shist = STREAM HISTORIES: from_stream on ONE stream object of kind {BytesIO, buffered file, raw FileIO, GzipFile, '
+        'BZ2File, ZstdFile, the fobj of ImageOpener for plain/.gz/.bz2/.zst, non-seekable raw / buffered / over gzip} after '
+        '{nothing, an earlier from_stream of the same class, failed from_stream of one or two other classes, peek+rewind, '
+        'read without rewind, full read+rewind, seek elsewhere, EOF} and random step lists, 5 serialisable classes (both '
+        'header byte orders); observable per step: loaded image re-serialised / failure, stream position; spec = same steps '
+        'on a BytesIO of the decompressed bytes and a fresh from_bytes; '
+        'gen = the five functions of filename_parser.py translated from the source, run by the driver, vs the real functions '
+        'on malformed + random + accepted names x real class tables and hand-made tables (extension without dot, None / empty '
+        'extension, duplicate keys, empty table) x suffix lists (empty, upper-case, empty-string suffix) x match_case x '
+        'enforce_extensions; pyop = every string operator of Basic/PyStrC12.lean vs CPython (slices with every bound in -7..7, '
+        'rfind/strip/removesuffix/endswith/lower/upper/splitext on edge strings incl. uncased non-ASCII); '
         'a case is distinct by (op, class, name[, flags]) / by its step list; every case is non-trivial (has a real name).')
 PENDING_FINDINGS = []
 
@@ -205,7 +237,24 @@ def regen():
           'end Nb.C12.Gen', '']
     common.write_if_changed(os.path.join(common.LEAN, 'NibabelModel', 'Generated', 'C12FileTypes.lean'), '\n'.join(L))
     return ['Generated.C12FileTypes.classTable', 'Generated.C12FileTypes.openerKeys',
-            'Generated.C12FileTypes.baseOpenerKeys']
+            'Generated.C12FileTypes.baseOpenerKeys'] + regen_funcs()
+
+
+# whole functions of filename_parser.py, translated from the working tree on every run (stage T)
+GEN_FUNCS = [('_endswith', 'py_endswith'), ('_iendswith', 'py_iendswith'), ('splitext_addext', 'splitext_addext'),
+             ('parse_filename', 'parse_filename'), ('types_filenames', 'types_filenames')]
+GEN_PATH = os.path.join(common.LEAN, 'NibabelModel', 'Generated', 'C12Funcs.lean')
+
+
+def regen_funcs():
+    import py2lean_c12
+    fp = _nib()[1]     # (no importlib.reload: a second TypesFilenamesError class would no longer be caught elsewhere)
+    objs = [(getattr(fp, py), ln) for py, ln in GEN_FUNCS]
+    hdr = ('/-! GENERATED by harness/props/c12.py regen() with harness/py2lean_c12.py (+ py2lean.py) from the working tree '
+           'of nibabel\n    (nibabel/filename_parser.py). Do not edit: rewritten on every run of `./check C12`. '
+           'Core Lean only. -/')
+    common.write_if_changed(GEN_PATH, py2lean_c12.translate_functions(objs, 'Nb.Gen.C12F', hdr))
+    return ['Generated.C12Funcs.' + ln for _, ln in GEN_FUNCS]
 
 
 # --------------------------------------------------------------------------- images and observables
@@ -395,6 +444,14 @@ def case_from_data(d):
         return mk_hist(d['steps'], d.get('stream', 'hist'))
     if op == 'wprog':
         return mk_wprog(d['kind'], d['ops'], d.get('stream', 'wprog'), d.get('cls'), d.get('endian'))
+    if op == 'gen':
+        return mk_gen(d['fn'], d['args'])
+    if op == 'pyop':
+        return mk_pyop(d['fn'], d['args'])
+    if op == 'kw':
+        return mk_kw(d['cls'], d['var'], d['kw'], d['ext'], d['ext_sp'], d['sfx_sp'], d.get('endian'), d.get('stream', 'kw'))
+    if op == 'shist':
+        return mk_shist(d['cls'], d.get('endian'), d['kind'], d['steps'], d.get('stream', 'shist'))
     if op in ('tf', 'tforig', 'parse', 'sae', 'codec', 'ext'):
         return mk_simple(op, d['name'], d.get('cls'), d.get('flags', ()), d.get('stream'))
     raise ValueError(d)
@@ -562,6 +619,9 @@ def cases(rng, tier):
                                        rng.choice(['<', '>'])))
     out.extend(hist_cases(rng, tier))
     out.extend(wprog_cases(rng, tier))
+    out.extend(kw_cases(rng, tier))
+    out.extend(stage_t_cases(rng, tier))
+    out.extend(shist_cases(rng, tier))
     return out
 
 
@@ -1127,6 +1187,697 @@ def wprog_cases(rng, tier):
     return out
 
 
+
+# --------------------------------------------------------------------------- keyword routes (stream `kw`)
+#
+# Every serialisation route forwards its keyword arguments to the class's `to_file_map` (GIFTI: `enc`, `mode`;
+# NIfTI / Analyze / CIFTI-2: `dtype`; MGH: none).  For one image and one keyword set, EVERY route must give the
+# same bytes (after decompression) or fail with the same exception class:
+#   to_bytes, to_stream(BytesIO), to_stream(open file), to_filename(str), to_filename(Path), nib.save(str),
+#   nib.save(Path), to_file_map(explicit map), to_file_map() with img.file_map set, to_file_map(map of BytesIO)
+# (multi-file classes: the name-based routes only; observable = member -> bytes).  Oracle-only stream.
+
+KW_GIFTI_DTYPES = ['float32', 'int32', 'uint8', 'float64', 'int64', 'uint16', 'int16', 'int8']
+KW_VOL_DTYPES = ['int16', 'uint8', 'float32', 'float64', 'int32']
+KW_DTYPE_VALUES = ['int16', 'uint8', 'float32', '>f4', '<i2', 'float64', 'int32', '>i4', 'compat', 'smallest', 'bogus']
+KW_MODES = ['strict', 'compat', 'force', 'bogus']
+KW_ENCS = ['utf-8', 'UTF-8', 'ascii', 'latin-1', 'utf-16', 'bogus']
+
+
+def make_kw_image(cls, var, endian=None):
+    """image of class `cls` whose data make the keywords matter; `var` = data dtype name (GIFTI: '+'-joined list of
+    the data arrays' dtypes, declared with that GIFTI datatype — non-standard ones included)"""
+    k = class_by_name(cls)
+    if cls == 'GiftiImage':
+        from nibabel.gifti import GiftiDataArray
+        das = []
+        for i, dt in enumerate(var.split('+')):
+            arr = ((np.arange(15) + i) % 7).astype(dt).reshape(5, 3)
+            das.append(GiftiDataArray(arr, intent='NIFTI_INTENT_POINTSET' if i == 0 else 'NIFTI_INTENT_SHAPE',
+                                      datatype=np.dtype(dt).name))
+        return k(darrays=das)
+    if cls == 'Cifti2Image':
+        from nibabel.cifti2 import cifti2_axes as ax
+        sc = ax.ScalarAxis(['a', 'b'])
+        bm = ax.BrainModelAxis.from_surface([0, 1, 2], 5, name='CortexLeft')
+        return k((np.arange(6).reshape(2, 3) * 3 - 4).astype(var), header=(sc, bm))
+    data = (np.arange(24).reshape(2, 3, 4) * 5 - 30).astype(var) if np.dtype(var).kind != 'u' else \
+        (np.arange(24).reshape(2, 3, 4) * 5).astype(var)
+    if cls == 'MGHImage':
+        return k(data, AFFINE.copy())
+    if endian is not None and cls in ENDIAN_CLASSES:
+        hdr = k.header_class(endianness=endian)
+        hdr.set_data_dtype(data.dtype)
+        return k(data, AFFINE.copy(), header=hdr)
+    return k(data, AFFINE.copy())
+
+
+def kw_vars(cls):
+    if cls == 'GiftiImage':
+        return KW_GIFTI_DTYPES + ['float32+float64', 'int64+uint8']
+    if cls == 'Cifti2Image':
+        return ['float32', 'float64', 'int16']
+    if cls == 'MGHImage':
+        return ['int16', 'uint8', 'float32', 'int32']
+    return KW_VOL_DTYPES + (['int64'] if cls.startswith('Nifti') else [])
+
+
+def mk_kw(cls, var, kw, ext, ext_sp, sfx_sp, endian=None, stream='kw'):
+    if cls not in ENDIAN_CLASSES:
+        endian = None
+    d = {'op': 'kw', 'cls': cls, 'var': var, 'kw': dict(kw), 'ext': ext, 'ext_sp': ext_sp, 'sfx_sp': sfx_sp,
+         'endian': endian, 'stream': stream}
+    return Case(None, d, ('kw', cls, var, json.dumps(kw, sort_keys=True), ext_sp, sfx_sp, endian), stream)
+
+
+def _content_id(m):
+    """canonical id of a route's result: member (lower-case extension) -> decompressed bytes"""
+    h = hashlib.sha1()
+    for key in sorted(m):
+        h.update(key.encode() + b'\0' + str(len(m[key])).encode() + b'\0' + m[key])
+    return 'ok:' + h.hexdigest()[:16]
+
+
+def _member_key(fname, sfx_sp):
+    base = fname[:len(fname) - len(sfx_sp)] if sfx_sp else fname
+    return '.' + base.rsplit('.', 1)[-1].lower()
+
+
+def impl_kw(case):
+    import nibabel as nib
+    fbi = _nib()[0]
+    d = case.data
+    cls, var, kw, en = d['cls'], d['var'], d['kw'], d.get('endian')
+    k = class_by_name(cls)
+    serial = issubclass(k, fbi.SerializableImage) and len(k.files_types) == 1
+    key0 = k.files_types[0][0]
+    ext0 = _member_key('x' + d['ext_sp'], '') if d['ext'] != '.mgz' else '.mgz'
+    ex = case.extra = {'bytes': {}}
+    tmp = tempfile.mkdtemp(prefix='c12k_')
+    res = {}
+
+    def run(route, fn):
+        img = make_kw_image(cls, var, en)
+        try:
+            m = fn(img)
+        except Exception as e:  # noqa: BLE001  (the exception class IS the observable)
+            res[route] = 'ERR:' + type(e).__name__
+            return
+        res[route] = _content_id(m)
+        ex['bytes'][route] = m
+
+    def read_dir(sub):
+        root = os.path.join(tmp, sub)
+        return {_member_key(f, d['sfx_sp']): decompress(open(os.path.join(root, f), 'rb').read()) for f in listing(root)}
+
+    def named(sub):
+        os.makedirs(os.path.join(tmp, sub), exist_ok=True)
+        return os.path.join(tmp, sub, 'f' + d['ext_sp'] + d['sfx_sp'])
+
+    try:
+        if serial:
+            run('to_bytes', lambda img: {ext0: img.to_bytes(**kw)})
+
+            def r_stream(img):
+                bio = io.BytesIO()
+                img.to_stream(bio, **kw)
+                return {ext0: bio.getvalue()}
+            run('to_stream(BytesIO)', r_stream)
+
+            def r_stream_file(img):
+                p = os.path.join(tmp, 'stream.bin')
+                with open(p, 'wb') as f:
+                    img.to_stream(f, **kw)
+                return {ext0: open(p, 'rb').read()}
+            run('to_stream(file)', r_stream_file)
+
+            def r_fm_bio(img):
+                bio = io.BytesIO()
+                img.to_file_map(k.make_file_map({key0: bio}), **kw)
+                return {ext0: bio.getvalue()}
+            run('to_file_map(BytesIO map)', r_fm_bio)
+
+        def r_to_filename(img, sub='tf', as_path=False):
+            p = named(sub)
+            img.to_filename(pathlib.Path(p) if as_path else p, **kw)
+            return read_dir(sub)
+        run('to_filename(str)', r_to_filename)
+        run('to_filename(Path)', lambda img: r_to_filename(img, 'tfp', True))
+
+        def r_save(img, sub='sv', as_path=False):
+            p = named(sub)
+            nib.save(img, pathlib.Path(p) if as_path else p, **kw)
+            return read_dir(sub)
+        run('nib.save(str)', r_save)
+        run('nib.save(Path)', lambda img: r_save(img, 'svp', True))
+
+        def r_fm(img):
+            img.to_file_map(k.filespec_to_file_map(named('fm')), **kw)
+            return read_dir('fm')
+        run('to_file_map(map)', r_fm)
+
+        def r_fm_self(img):
+            img.file_map = k.filespec_to_file_map(named('fms'))
+            img.to_file_map(**kw)
+            return read_dir('fms')
+        run('to_file_map() own map', r_fm_self)
+        # second call site of the keywords: nib.save's implicit single <-> pair conversion forwards them too
+        cross = {'Nifti1Image': ('Nifti1Pair', '.img'), 'Nifti2Image': ('Nifti2Pair', '.hdr'),
+                 'Nifti1Pair': ('Nifti1Image', '.nii'), 'Nifti2Pair': ('Nifti2Image', '.nii')}.get(cls)
+        if cross:
+            ck, cext = class_by_name(cross[0]), sibling_case(d['ext_sp'])(cross[1])
+
+            def r_cross(img, sub, conv):
+                os.makedirs(os.path.join(tmp, sub), exist_ok=True)
+                p = os.path.join(tmp, sub, 'f' + cext + d['sfx_sp'])
+                if conv:
+                    ck.from_image(img).to_filename(p, **kw)
+                else:
+                    nib.save(img, p, **kw)
+                return read_dir(sub)
+            run('x:nib.save(other member name)', lambda img: r_cross(img, 'xs', False))
+            run('x:converted.to_filename', lambda img: r_cross(img, 'xc', True))
+        # loading back what the keyworded routes wrote: bytes / stream / file give equivalent images
+        back = {}
+        if serial and res.get('to_bytes', '').startswith('ok:'):
+            b = ex['bytes']['to_bytes'][ext0]
+            for nm, fn in [('from_bytes', lambda: k.from_bytes(b)), ('from_stream', lambda: k.from_stream(io.BytesIO(b)))]:
+                try:
+                    back[nm] = data_digest(fn())
+                except Exception as e:  # noqa: BLE001
+                    back[nm] = 'ERR:' + type(e).__name__
+        if res.get('to_filename(str)', '').startswith('ok:'):
+            # (SPM's `.mat` side-car names a file set for save, but no class lists it in valid_exts: no generic load)
+            # (an Analyze-family pair reloads as the FIRST family class of load()'s order, whose proxy scales in another
+            #  float width: generic load is compared bit-exactly only when it returns the writing class)
+            for nm, fn in ([] if d['ext'] == '.mat' else [('load', lambda: nib.load(named('tf')))]) + \
+                    [('from_filename', lambda: k.from_filename(named('tf')))]:
+                try:
+                    got = fn()
+                    if nm == 'load' and type(got) is not k and cls in ANALYZE_FAMILY and type(got).__name__ in ANALYZE_FAMILY:
+                        continue
+                    back[nm] = data_digest(got) if type(got) is k else 'class:' + type(got).__name__
+                except Exception as e:  # noqa: BLE001
+                    back[nm] = 'ERR:' + type(e).__name__
+        ex['back'] = back
+        return ';'.join(f'{r}={v}' for r, v in res.items()) + ' back=' + ','.join(f'{a}:{b}' for a, b in back.items())
+    finally:
+        shutil.rmtree(tmp, ignore_errors=True)
+
+
+def oracle_kw(case, out):
+    d = case.data
+    tag = (f'{d["cls"]} ({d["var"]} data' + (f', header byte order {d["endian"]}' if d.get('endian') else '') +
+           f') serialised with keywords {d["kw"]} under the name f{d["ext_sp"]}{d["sfx_sp"]}')
+    routes = dict(kv.split('=', 1) for kv in out.split(' back=')[0].split(';'))
+    for r, v in routes.items():
+        first = next(q for q in routes if q.startswith('x:') == r.startswith('x:'))
+        if v != routes[first]:
+            ex = (case.extra or {}).get('bytes', {})
+            detail = ''
+            if r in ex and first in ex:
+                a, b = ex[first], ex[r]
+                detail = f' (members {sorted(a)} vs {sorted(b)}; sizes {[len(x) for x in a.values()]} vs {[len(x) for x in b.values()]})'
+            return (f'{tag}: route {first} gives {routes[first]} but route {r} gives {v}{detail}: the routes must '
+                    f'write the same bytes or raise the same exception class')
+    back = (case.extra or {}).get('back', {})
+    if len(set(back.values())) > 1:
+        return f'{tag}: loading back what the routes wrote gives different data: {back}'
+    return None
+
+
+def kw_sets(cls, rng, full):
+    """keyword sets for class `cls` (every keyword its to_file_map accepts, non-default values, an invalid value,
+    and a keyword the class does NOT accept)"""
+    if cls == 'GiftiImage':
+        sets = [{}] + [{'mode': m} for m in KW_MODES] + [{'enc': e} for e in KW_ENCS] + [{'dtype': 'int16'}]
+        pairs = [{'mode': m, 'enc': e} for m in KW_MODES[:3] for e in KW_ENCS[:5]]
+        return sets + (pairs if full else rng.sample(pairs, 4))
+    if cls == 'MGHImage':
+        return [{}, {'dtype': 'int16'}, {'mode': 'compat'}]
+    sets = [{}, {'dtype': None}] + [{'dtype': v} for v in KW_DTYPE_VALUES] + [{'mode': 'compat'}]
+    return sets
+
+
+def kw_cases(rng, tier):
+    out = []
+    full = tier != 'quick'
+    for cls in WRITABLE:
+        exts = member_exts(cls)
+        vs = kw_vars(cls)
+        if not full and cls != 'GiftiImage':
+            vs = rng.sample(vs, min(3, len(vs)))
+        for var in vs:
+            sets = kw_sets(cls, rng, full)
+            if not full and cls != 'GiftiImage':
+                sets = sets[:2] + rng.sample(sets[2:], min(4, len(sets) - 2))
+            for kw in sets:
+                e = rng.choice(exts)
+                es = _pick_spelling(rng, e)
+                sfx = [''] if e == '.mgz' else [''] + class_suffixes(cls)
+                ss = _pick_spelling(rng, rng.choice(sfx))
+                out.append(mk_kw(cls, var, kw, e, es, ss, rng.choice(['<', '>'])))
+    return out
+
+
+# --------------------------------------------------------------------------- stream histories (stream `shist`)
+#
+# `from_stream` is called on a stream object that has a HISTORY: kind of stream x what was done with the very same
+# object before (an earlier from_stream of the same / another class, a peek at the magic bytes, a full read, a seek
+# somewhere).  Spec: what the same steps give on an `io.BytesIO` of the decompressed bytes — image (to_bytes of the
+# loaded image, or the exception class) and stream position after every step.   Steps:
+#   ['F', K]  img = K.from_stream(s); observe s.tell(), sha1(img.to_bytes()), s.tell()
+#   ['P', n]  s.read(n); s.seek(0)        peek and rewind
+#   ['R', n]  s.read(n)                   read without rewinding
+#   ['A']     s.read(); s.seek(0)         full read + rewind
+#   ['S', n]  s.seek(n)                   leave the stream somewhere
+# Non-seekable kinds only get histories that leave the stream untouched before ONE from_stream (the API reads such
+# a stream from where it is).
+
+SKINDS_SEEKABLE = ['bytesio', 'plain', 'raw', 'gz', 'bz2', 'zst', 'opener', 'opener-gz', 'opener-bz2', 'opener-zst']
+SKINDS_NONSEEK = ['nonseek', 'buffered-nonseek', 'nonseek-gz']
+_SFILES = {}
+
+
+class _NonSeekable(io.RawIOBase):
+    """a pipe / socket / HTTP-response like reader"""
+
+    def __init__(self, f):
+        self._f = f
+
+    def readable(self):
+        return True
+
+    def seekable(self):
+        return False
+
+    def readinto(self, buf):
+        x = self._f.read(len(buf))
+        buf[:len(x)] = x
+        return len(x)
+
+
+def _sfiles(cls, endian):
+    """plain / gz / bz2 / zst files holding the serialisation of the standard image of `cls` (made once per run)"""
+    key = (cls, endian)
+    if key not in _SFILES:
+        if not _SFILES:
+            root = tempfile.mkdtemp(prefix='c12s_')
+            _SFILES['root'] = root
+            atexit.register(shutil.rmtree, root, True)
+        root = os.path.join(_SFILES['root'], f'{cls}_{ {"<": "le", ">": "be", None: "x"}[endian] }')
+        os.makedirs(root, exist_ok=True)
+        b = make_image(cls, endian).to_bytes()
+        ext = class_by_name(cls).files_types[0][1]
+        paths = {'plain': os.path.join(root, 'img' + ext)}
+        open(paths['plain'], 'wb').write(b)
+        with gzip.open(os.path.join(root, 'img' + ext + '.gz'), 'wb') as f:
+            f.write(b)
+        with bz2.open(os.path.join(root, 'img' + ext + '.bz2'), 'wb') as f:
+            f.write(b)
+        paths['gz'], paths['bz2'] = os.path.join(root, 'img' + ext + '.gz'), os.path.join(root, 'img' + ext + '.bz2')
+        if have_zstd():
+            import pyzstd
+            paths['zst'] = os.path.join(root, 'img' + ext + '.zst')
+            with pyzstd.ZstdFile(paths['zst'], 'wb') as f:
+                f.write(b)
+        _SFILES[key] = (b, paths)
+    return _SFILES[key]
+
+
+def _open_stream(kind, b, paths):
+    """-> (stream handed to from_stream, objects to close)"""
+    from nibabel.openers import ImageOpener
+    if kind == 'bytesio':
+        s = io.BytesIO(b)
+        return s, [s]
+    if kind == 'plain':
+        s = open(paths['plain'], 'rb')
+        return s, [s]
+    if kind == 'raw':
+        s = open(paths['plain'], 'rb', buffering=0)
+        return s, [s]
+    if kind == 'gz':
+        s = gzip.open(paths['gz'], 'rb')
+        return s, [s]
+    if kind == 'bz2':
+        s = bz2.open(paths['bz2'], 'rb')
+        return s, [s]
+    if kind == 'zst':
+        from nibabel._compression import pyzstd
+        s = pyzstd.ZstdFile(paths['zst'], 'rb')
+        return s, [s]
+    if kind.startswith('opener'):
+        # the stream object nibabel's own opener hands out for such a name
+        o = ImageOpener(paths[kind.split('-')[1] if '-' in kind else 'plain'], 'rb')
+        return o.fobj, [o]
+    if kind == 'nonseek':
+        s = _NonSeekable(io.BytesIO(b))
+        return s, [s]
+    if kind == 'buffered-nonseek':
+        s = io.BufferedReader(_NonSeekable(io.BytesIO(b)))
+        return s, [s]
+    if kind == 'nonseek-gz':
+        g = gzip.open(paths['gz'], 'rb')
+        s = _NonSeekable(g)
+        return s, [s, g]
+    raise ValueError(kind)
+
+
+def mk_shist(cls, endian, kind, steps, stream='shist'):
+    if cls not in ENDIAN_CLASSES:
+        endian = None
+    d = {'op': 'shist', 'cls': cls, 'endian': endian, 'kind': kind, 'steps': [list(s) for s in steps], 'stream': stream}
+    return Case(None, d, ('shist', cls, endian, kind, json.dumps(d['steps'])), stream)
+
+
+def _run_stream_steps(kind, b, paths, steps, with_pos=True):
+    """observable of every step.  A from_stream that FAILS (another class's bytes) is recorded as `ERR` only: which
+    exception a header parser raises on foreign bytes, and where it leaves the stream, depends on what the garbage
+    asks it to seek to (an absurd footer offset is an OSError on a real file, a HeaderDataError on a BytesIO); until
+    the next absolute positioning the position is not compared (`tainted`).  The position after the DATA of a loaded
+    image were read is not compared either (a plain file is memory-mapped, a BytesIO is read)."""
+    s, closers = _open_stream(kind, b, paths)
+    tainted = [False]
+
+    def pos():
+        if not with_pos or tainted[0]:
+            return '-'
+        try:
+            return str(s.tell())
+        except Exception as e:  # noqa: BLE001
+            return 'ERR:' + type(e).__name__
+    obs = []
+    try:
+        for st in steps:
+            try:
+                if st[0] == 'F':
+                    try:
+                        img = class_by_name(st[1]).from_stream(s)
+                    except Exception:  # noqa: BLE001
+                        tainted[0] = True
+                        obs.append(f'F:{st[1]}:ERR@-')
+                        continue
+                    tainted[0] = False
+                    p1 = pos()
+                    try:
+                        h = hashlib.sha1(img.to_bytes()).hexdigest()[:16]
+                    except Exception as e:  # noqa: BLE001
+                        h = 'ERR-data:' + type(e).__name__
+                    obs.append(f'F:{st[1]}:{h}@{p1}')
+                    tainted[0] = True           # (position after the data access: memory map vs read)
+                elif st[0] == 'P':
+                    n = len(s.read(st[1]))
+                    s.seek(0)
+                    obs.append(('P?' if tainted[0] else f'P{n}') + '@' + ('0' if with_pos and s.tell() == 0 else pos()))
+                    tainted[0] = False
+                elif st[0] == 'R':
+                    n = len(s.read(st[1]))
+                    obs.append('R?' if tainted[0] else f'R{n}@{pos()}')
+                elif st[0] == 'A':
+                    n = len(s.read())
+                    s.seek(0)
+                    obs.append(('A?' if tainted[0] else f'A{n}') + '@' + ('0' if with_pos and s.tell() == 0 else pos()))
+                    tainted[0] = False
+                elif st[0] == 'S':
+                    s.seek(st[1] % (len(b) + 1))       # (seeking past the end: clamped by decompressors, allowed by files)
+                    tainted[0] = False
+                    obs.append(f'S@{pos()}')
+                else:
+                    raise ValueError(st)
+            except ValueError:
+                raise
+            except Exception as e:  # noqa: BLE001
+                obs.append(f'{st[0]}:ERR:{type(e).__name__}')
+    finally:
+        for c in closers:
+            try:
+                c.close()
+            except Exception:  # noqa: BLE001
+                pass
+    return ';'.join(obs)
+
+
+class _Quiet:
+    """no log lines from header checks while foreign bytes are offered to a class"""
+
+    def __enter__(self):
+        import logging
+        self.logger = logging.getLogger('nibabel.global')
+        self.level = self.logger.level
+        self.logger.setLevel(logging.CRITICAL)
+
+    def __exit__(self, *a):
+        self.logger.setLevel(self.level)
+
+
+def impl_shist(case):
+    with _Quiet():
+        return _impl_shist(case)
+
+
+def _impl_shist(case):
+    d = case.data
+    b, paths = _sfiles(d['cls'], d.get('endian'))
+    with_pos = d['kind'] in SKINDS_SEEKABLE
+    ex = case.extra = {}
+    ex['ref'] = _run_stream_steps('bytesio', b, paths, d['steps'], with_pos)
+    ex['plain_sha'] = hashlib.sha1(b).hexdigest()[:16]
+    fresh = {}
+    for st in d['steps']:
+        if st[0] == 'F' and st[1] not in fresh:
+            try:
+                fresh[st[1]] = hashlib.sha1(class_by_name(st[1]).from_bytes(b).to_bytes()).hexdigest()[:16]
+            except Exception:  # noqa: BLE001
+                fresh[st[1]] = 'ERR'
+    ex['fresh'] = fresh
+    return _run_stream_steps(d['kind'], b, paths, d['steps'], with_pos)
+
+
+def oracle_shist(case, out):
+    d = case.data
+    ex = case.extra or {}
+    tag = (f'{d["cls"]}' + (f' (header byte order {d["endian"]})' if d.get('endian') else '') +
+           f' serialised, then steps {d["steps"]} on ONE {d["kind"]} stream of those bytes')
+    got, ref = out.split(';'), ex.get('ref', '').split(';')
+    for i, (g, r) in enumerate(zip(got, ref)):
+        if g != r:
+            return (f'{tag}: step {i + 1} {d["steps"][i]} gives {g}, the same steps on a BytesIO of the (decompressed) '
+                    f'bytes give {r}: loading from a stream differs from loading from bytes')
+    if len(got) != len(ref):
+        return f'{tag}: {len(got)} step results, reference has {len(ref)}'
+    for st, g in zip(d['steps'], got):
+        if st[0] != 'F':
+            continue
+        res = g.split('@')[0].split(':', 2)[2]
+        fr = ex['fresh'].get(st[1])
+        if res != fr:
+            return f'{tag}: {st[1]}.from_stream gives {res}, {st[1]}.from_bytes of the same bytes gives {fr}'
+        if st[1] == d['cls'] and res != ex['plain_sha']:
+            return f'{tag}: the image loaded by the writing class re-serialises to {res}, not to the bytes written ({ex["plain_sha"]})'
+    return None
+
+
+SHIST_OTHER = {'Nifti1Image': ['Nifti2Image', 'MGHImage'], 'Nifti2Image': ['Nifti1Image', 'Cifti2Image'],
+               'Cifti2Image': ['Nifti1Image', 'GiftiImage'], 'MGHImage': ['Nifti1Image', 'GiftiImage'],
+               'GiftiImage': ['MGHImage', 'Nifti2Image']}
+
+
+def shist_templates(cls, rng):
+    o1, o2 = SHIST_OTHER[cls]
+    return [[['F', cls]],
+            [['F', cls], ['F', cls]],                          # a second from_stream on the same stream
+            [['F', o1], ['F', cls]],                           # try class A, then class B
+            [['F', o1], ['F', o2], ['F', cls]],
+            [['P', 4], ['F', cls]],                            # peek at the magic, rewind
+            [['P', 348], ['F', cls], ['P', 2], ['F', cls]],
+            [['R', 4], ['F', cls]],                            # peek without rewinding
+            [['A'], ['F', cls]],                               # full read + rewind
+            [['S', rng.choice([1, 7, 100, 352, 400])], ['F', cls], ['F', cls]],
+            [['F', cls], ['A'], ['F', o1], ['F', cls]],
+            [['R', 100000], ['F', cls]]]                       # stream left at EOF
+
+
+def shist_cases(rng, tier):
+    out = []
+    seek_kinds = [k for k in SKINDS_SEEKABLE if have_zstd() or 'zst' not in k]
+    imgs = [(c, en) for c in SERIAL for en in (['<', '>'] if c in ENDIAN_CLASSES else [None])]
+    for cls, en in imgs:
+        tpl = shist_templates(cls, rng)
+        for kind in seek_kinds:
+            chosen = tpl if tier != 'quick' else tpl[:5] + rng.sample(tpl[5:], 2)
+            for steps in chosen:
+                out.append(mk_shist(cls, en, kind, steps))
+        for kind in SKINDS_NONSEEK:
+            out.append(mk_shist(cls, en, kind, [['F', cls]]))
+            out.append(mk_shist(cls, en, kind, [['R', 0], ['F', cls]]))
+            out.append(mk_shist(cls, en, kind, [['F', SHIST_OTHER[cls][0]]]))
+    n = {'quick': 60, 'thorough': 1500, 'search': 300}[tier]
+    for _ in range(n):
+        cls, en = rng.choice(imgs)
+        kind = rng.choice(seek_kinds)
+        steps = []
+        for _ in range(rng.randrange(1, 6)):
+            r = rng.random()
+            if r < 0.5:
+                steps.append(['F', cls if rng.random() < 0.6 else rng.choice(SERIAL)])
+            elif r < 0.65:
+                steps.append(['P', rng.choice([1, 2, 4, 8, 348, 352, 540, 5000])])
+            elif r < 0.8:
+                steps.append(['R', rng.choice([0, 1, 4, 344, 348, 1000, 100000])])
+            elif r < 0.9:
+                steps.append(['A'])
+            else:
+                steps.append(['S', rng.choice([0, 1, 4, 100, 352, 544, 2000])])
+        if not any(s[0] == 'F' for s in steps):
+            steps.append(['F', cls])
+        out.append(mk_shist(cls, en, kind, steps))
+    return out
+
+
+# --------------------------------------------------------------------------- stage T streams: `gen`, `pyop`
+#
+# `gen`: the functions of filename_parser.py TRANSLATED from the working tree (Generated/C12Funcs.lean, run by the
+# native driver) against the real functions on the same arguments.  `pyop`: every string operator of
+# Basic/PyStrC12.lean against CPython.  Values on the wire: see Driver/C12.lean (stage T).
+
+def tv(v):
+    if v is None:
+        return 'N'
+    if isinstance(v, bool):
+        return 'b1' if v else 'b0'
+    if isinstance(v, int):
+        return f'i{v}'
+    if isinstance(v, str):
+        return 'u' + ','.join(str(ord(c)) for c in v)
+    raise ValueError(v)
+
+
+def tv_list(items):
+    return 'L' + ';'.join(tv(x) for x in items)
+
+
+def tv_pairs(pairs):
+    return 'L' + ';'.join('P' + tv(a) + '&' + tv(b) for a, b in pairs)
+
+
+def show_val(v):
+    if v is None or isinstance(v, (bool, int, str)):
+        return tv(v)
+    if isinstance(v, (tuple, list)):
+        return '(' + ';'.join(show_val(x) for x in v) + ')'
+    if isinstance(v, dict):
+        return '{(' + ';'.join(f'({show_val(k)};{show_val(x)})' for k, x in v.items()) + ')}'
+    raise ValueError(v)
+
+
+GEN_ARGKINDS = {'_endswith': 'ss', '_iendswith': 'ss', 'splitext_addext': 'slb', 'parse_filename': 'splb',
+                'types_filenames': 'splbb'}
+
+
+def _tv_kind(kind, v):
+    return {'s': tv, 'b': lambda x: tv(bool(x)), 'l': tv_list, 'p': tv_pairs}[kind](v)
+
+
+def mk_gen(fn, args):
+    args = [list(map(list, a)) if k == 'p' else (list(a) if k == 'l' else a) for k, a in zip(GEN_ARGKINDS[fn], args)]
+    toks = [_tv_kind(k, a) for k, a in zip(GEN_ARGKINDS[fn], args)]
+    return Case(f'C12 gen {fn} ' + ' '.join(toks), {'op': 'gen', 'fn': fn, 'args': args}, ('gen', fn, tuple(toks)), 'gen')
+
+
+def impl_gen(d):
+    fp = _nib()[1]
+    args = [tuple(tuple(x) for x in a) if k == 'p' else (tuple(a) if k == 'l' else (bool(a) if k == 'b' else a))
+            for k, a in zip(GEN_ARGKINDS[d['fn']], d['args'])]
+    try:
+        return show_val(getattr(fp, d['fn'])(*args))
+    except fp.TypesFilenamesError:
+        return 'ERR:ValueError'
+    except (TypeError, AttributeError):
+        return 'ERR:TypeError'
+    except IndexError:
+        return 'ERR:IndexError'
+
+
+PYOPS1 = {'lower': lambda s: s.lower(), 'upper': lambda s: s.upper(), 'len': len,
+          'splitext': lambda s: __import__('posixpath').splitext(s), 'isstr': lambda s: isinstance(s, str),
+          'truthy': bool}
+PYOPS2 = {'endswith': lambda a, b: a.endswith(b), 'rfind': lambda a, b: a.rfind(b), 'strip': lambda a, b: a.strip(b),
+          'removesuffix': lambda a, b: a.removesuffix(b), 'add': lambda a, b: a + b, 'slicefrom': lambda a, k: a[k:],
+          'sliceto': lambda a, k: a[:k], 'eq': lambda a, b: a == b,
+          'callstr1': lambda f, x: {'fn:identity': lambda s: s, 'fn:str.upper': str.upper, 'fn:str.lower': str.lower}[f](x)}
+
+
+def mk_pyop(op, args):
+    return Case(f'C12 pyop {op} ' + ' '.join(tv(a) for a in args), {'op': 'pyop', 'fn': op, 'args': list(args)},
+                ('pyop', op, tuple(args)), 'pyop')
+
+
+def impl_pyop(d):
+    f = PYOPS1[d['fn']] if len(d['args']) == 1 else PYOPS2[d['fn']]
+    try:
+        return show_val(f(*d['args']))
+    except (TypeError, AttributeError, KeyError):
+        return 'ERR:TypeError'
+
+
+PYOP_STRINGS = ['', '.', '..', 'f', 'f.nii', 'F.NII.GZ', 'f.Nii.gz', 'a/b.c', 'a.b/c', 'a.b/.c', 'a/.hidden', '.hidden', '..x',
+                'x.', 'x..', '/', 'a/', 'a//b.c.d', 'AbC.xYz', 'Z@[`az{', 'データ.NII', '数.データ', ' f .n ii ', 'f.tar.gz',
+                '.gz', 'GZ', '.', 'a.b.c.d', 'd.nii/f', './f', '...', 'a/...', 'a/..b']
+GEN_TABLES = [(('t1', 'ext1'), ('t2', 'ext2')), (('t1', '.ext1'), ('t2', '.ext2')),
+              (('image', '.img'), ('header', '.hdr'), ('mat', '.mat')), (('a', None), ('b', '.x')),
+              (('a', ''), ('b', '.B')), (('a', '.x'), ('a', '.y')), (('only', '.GII'),), ()]
+GEN_SUFFIXES = [(), ('.gz', '.bz2'), ('.GZ',), ('',), ('.gz', '.bz2', '.zst'), ('z', '.gz')]
+
+
+def stage_t_cases(rng, tier):
+    out = []
+    # ---- pyop
+    ss = PYOP_STRINGS
+    for s in ss:
+        for op in ('lower', 'upper', 'len', 'splitext', 'isstr', 'truthy'):
+            out.append(mk_pyop(op, [s]))
+        for c in ('.', '/', 'x'):
+            out.append(mk_pyop('rfind', [s, c]))
+            out.append(mk_pyop('strip', [s, c]))
+        for k in range(-7, 8):
+            out.append(mk_pyop('slicefrom', [s, k]))
+            out.append(mk_pyop('sliceto', [s, k]))
+        for f in ('fn:identity', 'fn:str.upper', 'fn:str.lower', 'fn:other'):
+            out.append(mk_pyop('callstr1', [f, s]))
+        for e in ['', '.', '.gz', '.GZ', 'nii', '.NII', 'x.', '..', s, s[1:], s[-2:]]:
+            out.append(mk_pyop('endswith', [s, e]))
+            out.append(mk_pyop('removesuffix', [s, e]))
+            out.append(mk_pyop('add', [s, e]))
+            out.append(mk_pyop('eq', [s, e]))
+    for v in (None, True, False, 0, 3):
+        out.append(mk_pyop('isstr', [v]))
+        out.append(mk_pyop('truthy', [v]))
+    # ---- gen
+    table = table_facts()
+    rows = [(tuple(map(tuple, r['files_types'])), tuple(r['suffixes'])) for r in table['rows']]
+    rows = list(dict.fromkeys(rows))
+    names = [n for n in MALFORMED + PYOP_STRINGS if stable(n)]
+    names += [rand_name(rng) for _ in range({'quick': 80, 'thorough': 3000, 'search': 600}[tier])]
+    for cls in [r['name'] for r in table['rows'] if r['kind'] != 2]:
+        acc = list(accepted_names(cls, rng, 2))
+        for e, es, ss_ in (acc if tier != 'quick' else rng.sample(acc, min(len(acc), 12))):
+            dp, st = rng.choice(SHAPES)
+            names.append((dp + '/' if dp else '') + st + es + ss_)
+    for nm in names:
+        nm = posix(nm)
+        tabs = rng.sample(rows, 2 if tier != 'quick' else 1) + [(rng.choice(GEN_TABLES), rng.choice(GEN_SUFFIXES))]
+        for T, S in tabs:
+            for mc in (False, True):
+                out.append(mk_gen('splitext_addext', [nm, S, mc]))
+                out.append(mk_gen('parse_filename', [nm, T, S, mc]))
+                for enforce in (False, True):
+                    out.append(mk_gen('types_filenames', [nm, T, S, enforce, mc]))
+            for e in list(S) + [x for _, x in T if x is not None]:
+                out.append(mk_gen('_endswith', [nm, e]))
+                out.append(mk_gen('_iendswith', [nm, e]))
+    return out
+
 # --------------------------------------------------------------------------- implementation side
 
 def show_map(m):
@@ -1188,6 +1939,14 @@ def impl(case):
         return impl_hist(case)
     if o == 'wprog':
         return impl_wprog(case)
+    if o == 'gen':
+        return impl_gen(d)
+    if o == 'pyop':
+        return impl_pyop(d)
+    if o == 'kw':
+        return impl_kw(case)
+    if o == 'shist':
+        return impl_shist(case)
     raise ValueError(o)
 
 
@@ -1471,6 +2230,10 @@ def oracle(case, out):
         return oracle_hist(case, out)
     if d['op'] == 'wprog':
         return oracle_wprog(case, out)
+    if d['op'] == 'kw':
+        return oracle_kw(case, out)
+    if d['op'] == 'shist':
+        return oracle_shist(case, out)
     return None
 
 
@@ -1482,6 +2245,12 @@ def signature(case, what):
         return f'filemap:{meta[0]}:{kind}'
     if d['op'] == 'wprog':
         return f'wprog:{d["kind"]}:{d.get("cls") or "random"}'
+    if d['op'] in ('gen', 'pyop'):
+        return f'{d["op"]}:{d["fn"]}'
+    if d['op'] == 'kw':
+        return f'kw:{d["cls"]}:{",".join(sorted(d["kw"])) or "-"}'
+    if d['op'] == 'shist':
+        return f'shist:{d["kind"]}'
     if d['op'] == 'hist':
         import re
         m = re.search(r'step (\d+)/', what)
@@ -1521,6 +2290,21 @@ def shrink_candidates(case):
             yield mk_save(d['cls'], d['dir'], d['stem'], d['ext'], d['ext_sp'], '', d['as_path'], d['stream'], d.get('endian'))
             if d['sfx_sp'] != d['sfx_sp'].lower():
                 yield mk_save(d['cls'], d['dir'], d['stem'], d['ext'], d['ext_sp'], d['sfx_sp'].lower(), d['as_path'], d['stream'], d.get('endian'))
+    if d['op'] == 'shist':
+        steps = d['steps']
+        for i in range(len(steps)):
+            rest = steps[:i] + steps[i + 1:]
+            if any(x[0] == 'F' for x in rest):
+                yield mk_shist(d['cls'], d.get('endian'), d['kind'], rest, d['stream'])
+    if d['op'] == 'kw':
+        if d['sfx_sp']:
+            yield mk_kw(d['cls'], d['var'], d['kw'], d['ext'], d['ext_sp'], '', d.get('endian'), d['stream'])
+        if d['ext_sp'] != d['ext']:
+            yield mk_kw(d['cls'], d['var'], d['kw'], d['ext'], d['ext'], d['sfx_sp'], d.get('endian'), d['stream'])
+        for key in sorted(d['kw']):
+            if len(d['kw']) > 1:
+                yield mk_kw(d['cls'], d['var'], {a: b for a, b in d['kw'].items() if a != key}, d['ext'], d['ext_sp'],
+                            d['sfx_sp'], d.get('endian'), d['stream'])
     if d['op'] == 'wprog' and not d.get('cls'):
         ops = d['ops']
         for i in range(len(ops)):
